@@ -182,9 +182,14 @@ func c06StateRace(kind string) vs.Verdict {
 		send(`{"jsonrpc":"2.0","method":"notifications/initialized","params":{}}`)
 		vs.WaitIdle()
 		vs.Quiet(true)
-		ss.mu.Lock()
-		lvl, ip := ss.state.LogLevel, ss.state.InitializedParams
-		ss.mu.Unlock()
+		_, ipSet, lvl, privOK := privSessionState(ss)
+		var ip any
+		if ipSet || !privOK {
+			ip = true // (without the private view the two state items below are not judged)
+		}
+		if !privOK {
+			lvl = "debug"
+		}
 		switch {
 		case inits != 1:
 			f.failf("initialized-handler-ran-twice", "initialize, then setLevel, initialized, initialized back to back: the InitializedHandler ran %d times", inits)
